@@ -10,7 +10,20 @@
 // killed process leaves behind under the process-crash model: every completed
 // write is there, the operation in flight is cut, no defers have run.
 //
-// With no recorder installed Point is one atomic load.
+// With no recorder installed Point is two atomic loads.
+//
+// Two ways of installing a recorder:
+//
+//   - Install(r): process-global. Every Point reached by ANY goroutine that has
+//     no goroutine-local recorder goes to r. Use it when the recorded operation
+//     runs (partly) on goroutines the harness does not own (e.g. a store's
+//     background reaper). Only one such recording at a time per process.
+//   - InstallLocal(r): bound to the calling goroutine. Only Points reached by
+//     that goroutine go to r, so several workers can each record their own
+//     operation (and recover images without recording) in parallel in one
+//     process. A goroutine-local recorder takes precedence over the global one.
+//     InstallLocal(nil) makes the calling goroutine's Points invisible to a
+//     global recorder as well (a "mute" scope).
 package verifvfs
 
 import (
@@ -20,9 +33,12 @@ import (
 	"io"
 	"os"
 	"path/filepath"
+	"runtime"
 	"sort"
 	"sync"
 	"sync/atomic"
+	"syscall"
+	"time"
 )
 
 // Image is one crash image.
@@ -41,6 +57,15 @@ type Recorder struct {
 	// Skip, if set, is consulted with the path relative to Root; returning
 	// true leaves the file or directory out of hashes and images.
 	Skip func(rel string) bool
+	// HashNameOnly, if set, names files (path relative to Root) whose CONTENT
+	// is left out of the tree hash (their name still counts and they are still
+	// copied into images). For volatile caches whose bytes differ from run to
+	// run without meaning, e.g. SQLite's "-shm" wal-index, which the first
+	// connection after a crash resets.
+	HashNameOnly func(rel string) bool
+	// NoStatCache disables the per-file digest cache of the tree hash (see
+	// fileDigest): every Point then re-reads every file.
+	NoStatCache bool
 	// Only, if set, restricts image taking to labels it accepts (points are
 	// still counted).
 	Only func(label string) bool
@@ -55,7 +80,26 @@ type Recorder struct {
 	labels   map[string]int
 	capped   bool
 	copyErrs []string
+	fcache   map[string]fileEntry
 }
+
+// fileEntry caches the digest of one file of the watched tree. It is reused at
+// a later Point only if the file's (size, mtime, inode) are unchanged AND the
+// digest was computed more than statCacheGuard after that mtime. The second
+// condition makes the cache sound on file systems with coarse timestamps: a
+// write that happens after the digest was taken receives an mtime no older
+// than (its real time - one clock tick), which is then later than the cached
+// mtime, so the tuple differs. A file modified "recently" is simply re-read at
+// every Point until the guard interval has passed.
+type fileEntry struct {
+	size     int64
+	mtime    time.Time
+	ino      uint64
+	hashedAt time.Time
+	sum      [sha256.Size]byte
+}
+
+const statCacheGuard = 200 * time.Millisecond
 
 var cur atomic.Pointer[Recorder]
 
@@ -72,8 +116,67 @@ func Install(r *Recorder) *Recorder {
 	return cur.Swap(r)
 }
 
+// goroutine-local recorders: goroutine id -> *Recorder (nil value = muted)
+var (
+	locals sync.Map
+	nLocal atomic.Int64
+)
+
+// goid returns the id of the calling goroutine (parsed from the stack header
+// "goroutine N [running]:"; about a microsecond, only paid while some
+// goroutine-local recorder is installed).
+func goid() uint64 {
+	var buf [64]byte
+	n := runtime.Stack(buf[:], false)
+	var id uint64
+	for _, c := range buf[len("goroutine "):n] {
+		if c < '0' || c > '9' {
+			break
+		}
+		id = id*10 + uint64(c-'0')
+	}
+	return id
+}
+
+// InstallLocal binds r to the calling goroutine: Points reached by this
+// goroutine go to r (and not to a global recorder) until the returned function
+// is called (from the same goroutine). r == nil mutes the goroutine. Nested
+// use restores the previous binding.
+func InstallLocal(r *Recorder) (uninstall func()) {
+	if r != nil {
+		r.mu.Lock()
+		if r.seen == nil {
+			r.seen = map[string]bool{}
+			r.labels = map[string]int{}
+		}
+		r.mu.Unlock()
+	}
+	id := goid()
+	prev, had := locals.Load(id)
+	locals.Store(id, r)
+	if !had {
+		nLocal.Add(1)
+	}
+	return func() {
+		if had {
+			locals.Store(id, prev)
+			return
+		}
+		locals.Delete(id)
+		nLocal.Add(-1)
+	}
+}
+
 // Point is called by instrumented code.
 func Point(label string) {
+	if nLocal.Load() > 0 {
+		if v, ok := locals.Load(goid()); ok {
+			if r := v.(*Recorder); r != nil {
+				r.Snap(label)
+			}
+			return
+		}
+	}
 	r := cur.Load()
 	if r == nil {
 		return
@@ -81,8 +184,15 @@ func Point(label string) {
 	r.Snap(label)
 }
 
-// Active reports whether a recorder is installed.
-func Active() bool { return cur.Load() != nil }
+// Active reports whether a recorder is installed (globally or for the calling goroutine).
+func Active() bool {
+	if nLocal.Load() > 0 {
+		if v, ok := locals.Load(goid()); ok {
+			return v.(*Recorder) != nil
+		}
+	}
+	return cur.Load() != nil
+}
 
 // Snap takes an image labelled label if the tree changed since the last image.
 // Harnesses call it directly for "after the acknowledgement" style points.
@@ -147,6 +257,17 @@ func (r *Recorder) Points() (int64, []string) {
 	return r.points, ls
 }
 
+// LabelCounts returns how often each label was reached.
+func (r *Recorder) LabelCounts() map[string]int {
+	r.mu.Lock()
+	defer r.mu.Unlock()
+	out := make(map[string]int, len(r.labels))
+	for l, n := range r.labels {
+		out[l] = n
+	}
+	return out
+}
+
 // Capped reports whether MaxImages stopped an image from being taken.
 func (r *Recorder) Capped() bool { r.mu.Lock(); defer r.mu.Unlock(); return r.capped }
 
@@ -163,8 +284,20 @@ func HashTree(dir string) (string, error) {
 	return r.hashTree()
 }
 
+// HashOf returns the content hash of dir computed with r's Skip and
+// HashNameOnly rules (so that it is comparable with Image.Hash of r's images);
+// r itself is not touched. For harness-made variants of an image.
+func (r *Recorder) HashOf(dir string) (string, error) {
+	h := &Recorder{Root: dir, Skip: r.Skip, HashNameOnly: r.HashNameOnly, NoStatCache: true}
+	return h.hashTree()
+}
+
+var bufPool = sync.Pool{New: func() any { b := make([]byte, 64<<10); return &b }}
+
 func (r *Recorder) hashTree() (string, error) {
 	h := sha256.New()
+	bp := bufPool.Get().(*[]byte)
+	defer bufPool.Put(bp)
 	err := filepath.Walk(r.Root, func(p string, fi os.FileInfo, err error) error {
 		if err != nil {
 			if os.IsNotExist(err) {
@@ -186,6 +319,20 @@ func (r *Recorder) hashTree() (string, error) {
 			t, _ := os.Readlink(p)
 			fmt.Fprintf(h, "L %s -> %s\n", rel, t)
 		case fi.Mode().IsRegular():
+			if r.HashNameOnly != nil && r.HashNameOnly(rel) {
+				fmt.Fprintf(h, "f %s\n", rel)
+				return nil
+			}
+			var ino uint64
+			if st, ok := fi.Sys().(*syscall.Stat_t); ok {
+				ino = uint64(st.Ino)
+			}
+			if ce, ok := r.fcache[rel]; ok && !r.NoStatCache && ino != 0 && ce.ino == ino && ce.size == fi.Size() &&
+				ce.mtime.Equal(fi.ModTime()) && ce.hashedAt.Sub(ce.mtime) > statCacheGuard {
+				fmt.Fprintf(h, "F %s %d\n", rel, fi.Size())
+				h.Write(ce.sum[:])
+				return nil
+			}
 			f, err := os.Open(p)
 			if err != nil {
 				if os.IsNotExist(err) {
@@ -194,11 +341,31 @@ func (r *Recorder) hashTree() (string, error) {
 				return err
 			}
 			fmt.Fprintf(h, "F %s %d\n", rel, fi.Size())
-			_, err = io.Copy(h, f)
+			// plain read loop into a pooled buffer (io.Copy would allocate 32 KB per file)
+			fh := sha256.New()
+			for {
+				n, rerr := f.Read(*bp)
+				fh.Write((*bp)[:n])
+				if rerr == io.EOF {
+					break
+				}
+				if rerr != nil {
+					err = rerr
+					break
+				}
+			}
 			f.Close()
 			if err != nil {
 				return err
 			}
+			// keyed by the stat taken BEFORE reading
+			ce := fileEntry{size: fi.Size(), mtime: fi.ModTime(), ino: ino, hashedAt: time.Now()}
+			fh.Sum(ce.sum[:0])
+			h.Write(ce.sum[:])
+			if r.fcache == nil {
+				r.fcache = map[string]fileEntry{}
+			}
+			r.fcache[rel] = ce
 		}
 		return nil
 	})
